@@ -199,10 +199,10 @@ def run(v, tier, seed, only_timers=False):
             disagreements.append((name, lines, bad, kind))
     for name, lines, bad, kind in disagreements[:5]:
         def fails(ls):
-            i, m = run_pair("store", [block("x", ls)], jobs=1)
+            i, m = run_pair("store", [block("x", ls)], jobs=1, stall=20)
             return judge(i.get("x", []), m.get("x", []))[0] is not None
         small = shrink(lines, fails)
-        i, m = run_pair("store", [block("x", small)], jobs=1)
+        i, m = run_pair("store", [block("x", small)], jobs=1, stall=20)
         b, k, _, _ = judge(i.get("x", []), m.get("x", []))
         content = (f"# property {v.pid}: the real pending-event store deviates from the declarative store\n"
                    f"# kind: {k}; first deviating operation index: {b}; scenario {name} (shrunk)\n"
@@ -230,7 +230,7 @@ def run(v, tier, seed, only_timers=False):
 
 def replay(v, path):
     lines = [l.strip() for l in open(path) if l.strip() and not l.startswith("#")]
-    i, m = run_pair("store", [block("x", lines)], jobs=1)
+    i, m = run_pair("store", [block("x", lines)], jobs=1, stall=20)
     b, k, _, _ = judge(i.get("x", []), m.get("x", []))
     for a, bb in zip(i.get("x", []), [l for l in m.get("x", []) if l.startswith("S ")]):
         print("impl:", a); print("spec:", bb)
